@@ -9,6 +9,7 @@ CONSTANTS
   Secrets <- S1
   Questions <- Q0
   AllowEnd = FALSE
+  MaxRequery = 0
 INVARIANTS TypeOK InOrderNoDup SlotBound NoSplice
 PROPERTIES TamperRejected
 CHECK_DEADLOCK FALSE
